@@ -4,4 +4,4 @@ ids=${1:-"C01 C02 C03 C04 C05 C06 C07 C08 C09 C10 C11 C12 C13 C14 C15 C16 C17 C1
 seeds=${2:-"0"}
 tier=${3:-quick}
 cd /verif
-for s in $seeds; do for p in $ids; do echo "$s $p"; done; done | xargs -P 3 -L 1 bash -c 'r=$(VERIF_SEED=$0 ./check $1 --tier '$tier' 2>&1 | grep -E "^(OK|VIOLATION)" | cut -c1-160 | tr "\n" ";"); echo "seed=$0 $1 $r"'
+for s in $seeds; do for p in $ids; do echo "$s $p"; done; done | xargs -P 4 -L 1 bash -c 'r=$(VERIF_SEED=$0 ./check $1 --tier '$tier' 2>&1 | grep -E "^(OK|VIOLATION)" | cut -c1-160 | tr "\n" ";"); echo "seed=$0 $1 $r"'
